@@ -269,7 +269,15 @@ def run(facts, res):
             pt = peel(t, stop_var=False)
             while pt[0] == "var":
                 pt = pt[3]
-            if pt[0] == "call" and callee_name(pt) in ("ne",):
+            want = "ne"
+            if pt[0] == "unop" and pt[1] == "Not":
+                pt = peel(pt[2])
+                while pt[0] == "var":
+                    pt = pt[3]
+                want = "eq"
+            whole = pt[0] == "call" and pt[4] is not None and "revision::Revision" in ((pt[4].self_ty or "") + " ".join(pt[4].args or []) + (pt[4].full or "")) \
+                and not any(x[0] == "call" and callee_name(x) in ("digest", "index", "to_string", "tail") for x in walk(pt) if x is not pt)
+            if pt[0] == "call" and callee_name(pt) == want and whole:
                 # one side is the captured winner (its definition in the parent derives from get_winner)
                 for x in walk(pt):
                     if x[0] == "upvar":
